@@ -49,6 +49,9 @@ def run_property(pid: str, tier: str, write_evidence=True, quiet=False) -> int:
         return 2
     try:
         repo = Repo()
+        if os.environ.get("QV_DEBUG_NORM"):
+            for line in repo.normalized:
+                print("NORMALIZED", line)
         ctx = Ctx(pid, repo, tier)
         mod.run(ctx)
         if tier == "thorough" and hasattr(mod, "run_thorough"):
